@@ -82,8 +82,12 @@ def body(mc, p):
     mc.emit("built", out=snapshot(out))
     if not p["pre"]:
         pending = list(range(len(allf)))
+        if p.get("order"):
+            n = len(pending)
+            pending = {"asc": pending, "desc": pending[::-1], "fnlast": pending[1:] + [0],
+                       "stride": [j for k in range(3) for j in range(k, n, 3)]}[p["order"]]
         while pending:
-            j = pending.pop(mc.choose(len(pending)))
+            j = pending.pop(mc.choose(len(pending)) if not p.get("order") else 0)
             resolve(j)
             mc.emit("resolved", j=j, out=snapshot(out), ncalls=len(calls))
     mc.observe(out=snapshot(out), ncalls=len(calls),
@@ -122,6 +126,23 @@ def check(x):
 
 harness("c16.apply", prop="C16", traced=(), horizon=20, params=_params(3, KWNAMES[:4]))(body)
 oracle("c16.apply")(check)
+
+
+def _wide():
+    """many inputs: fixed completion-order families instead of every permutation"""
+    out = []
+    many = tuple("k%02d" % i for i in range(12))
+    for npos, kws in ((10, ()), (25, ()), (40, ("a", "b")), (12, many), (0, many)):
+        n = 1 + npos + len(kws)
+        for bad in (None, 0, 1, n // 2, n - 1, "fn_raises"):
+            out.append(dict(npos=npos, kws=kws, bad=bad, pre=True))
+            for order in ("asc", "desc", "fnlast", "stride"):
+                out.append(dict(npos=npos, kws=kws, bad=bad, pre=False, order=order))
+    return out
+
+
+harness("c16.apply.wide", prop="C16", traced=(), horizon=20, params=_wide())(body)
+oracle("c16.apply.wide")(check)
 # every completion permutation is enumerated, so the number of inputs is capped at 6 (720 orders)
 harness("c16.apply.big", prop="C16", traced=(), horizon=20,
         params=[q for q in _params(4, KWNAMES) if 1 + q["npos"] + len(q["kws"]) <= 6])(body)
@@ -175,7 +196,7 @@ harness("c16.conc.narrow", prop="C16", traced=("common", "map"), horizon=20,
 oracle("c16.conc.narrow")(check)
 
 PLAN = {
-    "quick": [dict(harness="c16.apply", bound=0), dict(harness="c16.conc", bound=2, select=lambda p: p["npos"] == 1 and not p["kws"]),
+    "quick": [dict(harness="c16.apply", bound=0), dict(harness="c16.apply.wide", bound=0), dict(harness="c16.conc", bound=2, select=lambda p: p["npos"] == 1 and not p["kws"]),
               dict(harness="c16.conc", bound=1), dict(harness="c16.conc.narrow", bound=3)],
-    "thorough": [dict(harness="c16.apply.big", bound=0), dict(harness="c16.conc", bound=2), dict(harness="c16.conc.narrow", bound=3)],
+    "thorough": [dict(harness="c16.apply.big", bound=0), dict(harness="c16.apply.wide", bound=0), dict(harness="c16.conc", bound=2), dict(harness="c16.conc.narrow", bound=3)],
 }
